@@ -393,6 +393,11 @@ def run(ctx):
     ctx.require('room_ops', 20)
     ctx.require('disconnects', 5)
     ctx.require('clients_found_dead_during_emit', 3)
+    # threaded server: emits racing with membership changes made by other
+    # threads (controlled scheduler)
+    from checks import c03_sched
+    ctx.require('emit_race_schedules', 50)
+    c03_sched.run_part(ctx, (ctx.budget or 30) * 0.2)
     k = 0
     while not ctx.out_of_time() and not ctx.too_many_violations():
         run_case(ctx, k)
@@ -401,4 +406,7 @@ def run(ctx):
 
 
 def replay(ctx, w):
+    if w['witness'].get('part') == 'emit_race':
+        from checks import c03_sched
+        return c03_sched.replay(ctx, w)
     run_case(ctx, w['witness']['case_index'])
